@@ -1,13 +1,20 @@
 import SpecVerif.Proofs.Lemmas.Window
+import SpecVerif.Proofs.Lemmas.Kaiser
 import SpecVerif.Generated.Registry
 /-
   C20 — window generators: length, symmetry, maximum, centre sample, ENBW ≥ 1, and the factory tables.
 
-  Property theorems only (helper lemmas live in `Proofs/Lemmas/Window.lean`, namespace `SpecVerif.WinL`).
+  Property theorems only (helper lemmas live in `Proofs/Lemmas/Window.lean`, namespace `SpecVerif.WinL`, and
+  `Proofs/Lemmas/Kaiser.lean`, namespace `SpecVerif.KaiserL`).
   All theorems are about the model at `R := ℝ` (instance `instRealFnReal`).
+
+  Kaiser: maximum `≤ 1`, positivity and centre `= 1` are proved for every real `beta` (the model's `I₀` is the
+  61-term partial sum `Σ_{k ≤ 60} (x²/4)^k/(k!)²`, which is `≥ 1`, even and monotone in `|x|`).
+  Taylor: the centre sample is `1` whenever the normalising constant `W((N-1)/2)` is non-zero; the clause
+  "maximum ≤ 1" for Taylor (and everything about `chebwin`, a parameter of the model) is not proved here.
 -/
 namespace SpecVerif.C20
-open Finset SpecVerif SpecVerif.WinL
+open Finset SpecVerif SpecVerif.WinL SpecVerif.KaiserL
 
 /-! ### ENBW ≥ 1 for every list with non-zero sum (Cauchy–Schwarz) -/
 
@@ -656,6 +663,81 @@ theorem centre_eq_one_tukey (N : ℕ) (r : ℝ) (hr : r ≤ 1) (z o : Bool) (h3 
       rw [if_neg (by omega), if_neg (by omega)]
 
 example : (3 : ℕ) ≤ 5 ∧ 5 % 2 = 1 ∧ (5 - 1) / 2 < 5 := by decide
+
+/-! ### Kaiser (every real `beta`) and Taylor -/
+
+/-- Kaiser, every `N`, every real `beta`: all samples are `≤ 1` -/
+theorem max_le_one_kaiser (N : ℕ) (beta : ℝ) (n : ℕ) (hn : n < N) : nth (wKaiser N beta) n ≤ 1 := by
+  unfold wKaiser
+  exact max_guard N _ (fun h n hn => kaiser_sample_le_one N beta n h hn) n hn
+
+/-- Kaiser: all samples are strictly positive (indeed `≥ 1/I₀(β)`) -/
+theorem pos_kaiser (N : ℕ) (beta : ℝ) (n : ℕ) (hn : n < N) : 0 < nth (wKaiser N beta) n := by
+  unfold wKaiser
+  rw [nth_guard N _ n hn]
+  split_ifs
+  · exact one_pos
+  · exact kaiser_sample_pos _ _
+
+/-- Kaiser, odd `N ≥ 3`: the centre sample is exactly `1` (there `u = 0`, `sqrt 1 = 1`, `I₀(β)/I₀(β) = 1`) -/
+theorem centre_eq_one_kaiser (N : ℕ) (beta : ℝ) (h3 : 3 ≤ N) (hodd : N % 2 = 1) :
+    nth (wKaiser N beta) ((N - 1) / 2) = 1 := by
+  unfold wKaiser
+  rw [centre_guard N h3]
+  simp only [kaiser_u_centre N h3 hodd, mul_zero, sub_zero, sqrt_real, Real.sqrt_one, mul_one]
+  exact div_self (besselI0_ne_zero beta)
+
+example : nth (wKaiser 5 (14 : ℝ)) 2 = 1 := centre_eq_one_kaiser 5 14 (by norm_num) (by norm_num)
+example : nth (wKaiser 1 (-3 : ℝ)) 0 ≤ 1 ∧ 0 < nth (wKaiser 1 (-3 : ℝ)) 0 :=
+  ⟨max_le_one_kaiser 1 _ 0 (by norm_num), pos_kaiser 1 _ 0 (by norm_num)⟩
+
+/-- Kaiser, `N ≥ 2`: the end samples are `1/I₀(β)` (there `u = ∓1`, the radicand is `0`) -/
+theorem first_kaiser (N : ℕ) (beta : ℝ) (h2 : 2 ≤ N) :
+    nth (wKaiser N beta) 0 = 1 / besselI0 beta := by
+  unfold wKaiser
+  rw [nth_guard N _ 0 (by omega), if_neg (by omega)]
+  simp only [kaiser_u_first N]
+  rw [sqrt_real]
+  norm_num [besselI0_zero]
+
+/-- Kaiser closed form (`N ≥ 2`, `n < N`): with `P(q) = Σ_{k ≤ 60} q^k/(k!)²` (`i0poly`, the partial sum the model's
+fold computes) the sample is `P(β²(1-u²)/4) / P(β²/4)`, `u = 2n/(N-1) − 1` -/
+theorem kaiser_closed_form (N : ℕ) (beta : ℝ) (n : ℕ) (h2 : 2 ≤ N) (hn : n < N) :
+    nth (wKaiser N beta) n
+      = i0poly (beta ^ 2 * (1 - (2 * (n : ℝ) / ((N : ℝ) - 1) - 1) ^ 2) / 4) / i0poly (beta ^ 2 / 4) := by
+  unfold wKaiser
+  rw [nth_guard N _ n hn, if_neg (by omega)]
+  simp only [besselI0_eq, sqrt_real]
+  have hr := (kaiser_radicand_range N n h2 hn).1
+  have e : ∀ r : ℝ, 0 ≤ r → beta * Real.sqrt r * (beta * Real.sqrt r) = beta ^ 2 * r := by
+    intro r h0
+    have := Real.mul_self_sqrt h0
+    calc beta * Real.sqrt r * (beta * Real.sqrt r) = beta ^ 2 * (Real.sqrt r * Real.sqrt r) := by ring
+      _ = beta ^ 2 * r := by rw [this]
+  rw [e _ hr, two_real, Nat.cast_sub (by omega), Nat.cast_one]
+  ring_nf
+
+/-- hence `ENBW ≥ 1` for the Kaiser window of every length `N ≥ 1` and every `beta` -/
+theorem enbw_ge_one_kaiser (N : ℕ) (beta : ℝ) (h1 : 1 ≤ N) : 1 ≤ enbw (wKaiser N beta) := by
+  have hlen : (wKaiser N beta).length = N := length_guard _ _
+  exact enbw_ge_one_of_nonneg _ (fun i hi => (pos_kaiser N beta i (hlen ▸ hi)).le) 0 (by omega)
+    (pos_kaiser N beta 0 (by omega))
+
+/-- Taylor, odd `N`: the centre sample is `W((N-1)/2)/scale = 1`, provided the model's normalising constant
+`scale = W((N-1)/2)` (`taylorScale`, the verbatim expression of the model) is not zero -/
+theorem centre_eq_one_taylor (N nbar : ℕ) (sll : ℝ) (hodd : N % 2 = 1)
+    (hs : taylorScale N nbar sll ≠ 0) :
+    nth (wTaylor N nbar sll) ((N - 1) / 2) = 1 := by
+  rw [wTaylor_eq, centre_vec N (by omega)]
+  have : taylorW N nbar sll ((((N - 1) / 2 : ℕ)) : ℝ) = taylorScale N nbar sll := by
+    unfold taylorScale
+    rw [cast_half N hodd, two_real]
+  rw [this]
+  exact div_self hs
+
+/-- the hypothesis of `centre_eq_one_taylor` is satisfiable (`nbar = 1`: no cosine terms, `scale = 1`) -/
+example : taylorScale 5 1 (30 : ℝ) ≠ 0 := by
+  rw [taylorScale_nbar_one]; exact one_ne_zero
 
 /-! ### the factory tables (finite: `decide`) -/
 
